@@ -325,7 +325,7 @@ func checkC14(c *ctx) {
 	dir := newScratch(work, "m")
 	o := prog.DefaultOpts()
 	// the single-defect mutations rewrite the abstract flow: keep every function and type in the program's own package
-	o.ImportPct, o.BarePct = 0, 0
+	o.ImportPct, o.BarePct, o.LineDirPct = 0, 0, 0 // (with //line comments diagnostics rightly name the file those comments announce)
 	o.InstrPct = 0
 	o.Spellings = []int{prog.SpLit, prog.SpLit, prog.SpTop, prog.SpMethod}
 	var cases []*c14case
